@@ -37,6 +37,8 @@ MANIFEST = dict(
          "helper applied to a triangle's vertices is applied to all three edges; a method that handles a stored node (a position in the node array) hands only the "
          "node's HTM id to the result lists, directly or through the id argument of the methods that pass it on, and searches all four stored children whatever a "
          "sibling answered (an early exit is accepted - as undecided - only if the answer that triggers it is produced solely under a failed edge-crossing test); "
+         "each once, necessary condition: in a cover method that works on one triangle (a stored node position or an HTM id parameter that reaches the result lists) a call that "
+         "hands the whole triangle over is on no control-flow path together with another call that hands over the same triangle or one of its children; "
          "the triangle lists searched for input point i are filled by an intersection of the same iteration (a kept cover is reused only under a condition that depends on "
          "longitude, latitude AND radius of the point), and no loop over the candidate triangles is left early on a condition on the candidate in hand; the edge/circle "
          "quadratic (eSolve) answers 'no crossing' on the ground of its discriminant only where the discriminant is negative (no positive absolute bound, no additive offset).",
@@ -2713,6 +2715,187 @@ def _four_children(fn, calls, idp, lvl, idpos, lvpos):
     return bool(ok), found
 
 
+def _cond_atoms(view, n):
+    """the conditions under which cfg node n runs, as structured atoms read off its controlling branches:
+    ('rel', a, b, outcomes) - the comparison of the texts a < b (ordered as strings) has one of `outcomes`, a subset of
+    {'lt', 'eq', 'gt', 'un'} ('un': unordered, a NaN operand) - or ('bool', text, polarity); each with the names it reads.
+    `!x` and the branch label set the polarity, `&&` under a positive and `||` under a negative polarity split into their parts."""
+    out = []
+    ALL = frozenset(("lt", "eq", "gt", "un"))
+
+    def names_of(e):
+        s = set()
+        for y in walk(e):
+            if y.get("kind") == "DeclRefExpr":
+                s.add(y.get("referencedDecl", {}).get("name"))
+            elif y.get("kind") == "MemberExpr":
+                s.add(y.get("name"))
+        s.discard(None)
+        return frozenset(s)
+
+    def go(e, pos):
+        e = strip(e)
+        k = e.get("kind")
+        if k == "UnaryOperator" and e.get("opcode") == "!":
+            return go(e["inner"][0], not pos)
+        if k == "BinaryOperator" and e.get("opcode") in ("&&", "||") and (e["opcode"] == "&&") == pos:
+            go(e["inner"][0], pos)
+            go(e["inner"][1], pos)
+            return
+        if k == "BinaryOperator" and e.get("opcode") in ("<", "<=", ">", ">=", "==", "!="):
+            a, b = render(e["inner"][0]).replace(" ", ""), render(e["inner"][1]).replace(" ", "")
+            oc = {"<": {"lt"}, "<=": {"lt", "eq"}, ">": {"gt"}, ">=": {"gt", "eq"}, "==": {"eq"}, "!=": {"lt", "gt", "un"}}[e["opcode"]]
+            if b < a:
+                a, b = b, a
+                oc = {{"lt": "gt", "gt": "lt"}.get(o, o) for o in oc}
+            oc = frozenset(oc)
+            out.append(("rel", a, b, oc if pos else ALL - oc, names_of(e)))
+            return
+        out.append(("bool", render(e).replace(" ", ""), pos, names_of(e)))
+
+    for b, lab in view.controlling_branches(n):
+        if b.kind in ("branch", "loop") and isinstance(b.c, dict) and lab in ("T", "F"):
+            go(b.c, lab == "T")
+    return out
+
+
+def _atoms_exclude(a1, a2):
+    """can the two atoms not hold for the same values of the variables they read"""
+    if a1[0] != a2[0]:
+        return False
+    if a1[0] == "bool":
+        return a1[1] == a2[1] and a1[2] != a2[2]
+    return a1[1] == a2[1] and a1[2] == a2[2] and not (a1[3] & a2[3])
+
+
+def handed_over_once_rules(chk, rule, fs, where):
+    """R12.9 (continued), each once: the cover is a list of triangles, and every second-set point filed under a listed triangle is
+    paired with the input point once per listing.  So, in every method of the vendored cover code that works on ONE triangle - a
+    stored node given by its position p in the node array, or a triangle given by its HTM id (a parameter whose value reaches the
+    result lists: found by following the arguments to ValVec<uint64>::append / leafNumberById) - a call that hands over that WHOLE
+    triangle (the node position itself to a method that walks stored nodes: fillChildren(p), triangleTest(p); the id `N(p).id_`, or
+    the id parameter itself, to a result list or to the id argument of a method that passes it on: append, setfull, testPartial,
+    testSubTriangle) settles the triangle: no control-flow path may carry, before or after it, a second call that hands over the
+    same triangle or one of its children (`N(p).childID_[k]`, a value computed from the id such as (id << 2) + k).  A pair of such
+    calls whose controlling conditions cannot hold together (x / !x, a == b / a < b, ... over variables that are not written in
+    between) is no path; a pair that is separated only by conditions on variables written in between is not judged."""
+    import networkx as nx
+    sinks, positions = id_sink_positions(fs)
+    walkers = {}
+    bodies = []
+    seen = set()
+    for name, fn in sorted(fs.items()):
+        if "::" not in name or id(fn) in seen or not cfront.has_body(fn):
+            continue
+        seen.add(id(fn))
+        short = name.split("::")[-1]
+        nps = _node_index_params(fn)
+        ps = cfront.params_of(fn)
+        if len(nps) == 1:
+            walkers.setdefault(short, set()).add(ps.index(nps[0]))
+        bodies.append((name, short, fn, nps, ps))
+    for name, short, fn, nps, ps in bodies:
+        par = nps[0] if len(nps) == 1 else None
+        idpars = [ps[i] for i in sorted(sinks.get(short, ())) if i < len(ps) and ps[i] not in nps]
+        if par is None and not idpars:
+            continue
+        key = "%s::a-triangle-is-handed-over-once" % short
+        fw = "%s:%s" % (where, fn.get("line", "?"))
+        sdl = _single_def_locals(fn)
+        idexpr = ("index_->nodes_.vector_[%s].id_" % par).replace(" ", "") if par else None
+        childpre = ("index_->nodes_.vector_[%s].childID_[" % par).replace(" ", "") if par else None
+        try:
+            g = cfront.CCFG(fn)
+            v = g.view()
+        except AnalysisError:
+            continue
+        cover = []        # (cfg node, call, subject, 'whole' | 'part', line)
+        for n in g.nodes:
+            if not isinstance(n.c, dict) or n.kind == "case":      # a case label's node carries the whole labelled statement, whose parts have nodes of their own
+                continue
+            for x in walk(n.c):
+                if x.get("kind") not in ("CallExpr", "CXXMemberCallExpr"):
+                    continue
+                cn = callee_name(x)
+                args = cfront.call_args(x)
+                ln = x.get("line") or next((y["line"] for y in walk(x) if y.get("line")), None) or n.c.get("line") or fn.get("line", "?")
+                got = set()
+                if par is not None:
+                    for pos in sorted(walkers.get(cn, ())):
+                        if pos < len(args):
+                            e = _through_locals(args[pos], sdl)
+                            t = render(e).replace(" ", "")
+                            if e.get("kind") == "DeclRefExpr" and e.get("referencedDecl", {}).get("kind") == "ParmVarDecl" and e["referencedDecl"].get("name") == par:
+                                got.add((par, "whole"))
+                            elif t.startswith(childpre):
+                                got.add((par, "part"))
+                for pos in sorted(positions(x)):
+                    if pos >= len(args):
+                        continue
+                    e = _through_locals(args[pos], sdl)
+                    t = render(e).replace(" ", "")
+                    if par is not None and t == idexpr:
+                        got.add((par, "whole"))
+                    elif par is not None and idexpr in t:
+                        got.add((par, "part"))
+                    for q in idpars:
+                        if e.get("kind") == "DeclRefExpr" and e.get("referencedDecl", {}).get("kind") == "ParmVarDecl" and e["referencedDecl"].get("name") == q:
+                            got.add((q, "whole"))
+                        elif q in _value_params(e, [q]):
+                            got.add((q, "part"))
+                for s, what in sorted(got):
+                    cover.append((n, x, s, what, ln))
+        if not any(c[3] == "whole" for c in cover):
+            continue
+        chk.analysed_unit("SpatialConvex.cpp:" + name)
+        assigned = _assigned_names(fn)
+        rewritten = sorted({c[2] for c in cover} & assigned)
+        if rewritten:
+            chk.ob(rule, key, None, fw, "the triangle the method works on (`%s`) is reassigned in its body; the calls that hand it over were not compared" % ", ".join(rewritten))
+            continue
+        bad, undecided, pairs = [], [], 0
+        donep = set()
+        for A in cover:
+            if A[3] != "whole":
+                continue
+            for B in cover:
+                if B is A or B[2] != A[2] or B[0] is A[0] or B[1] is A[1] or (id(B[1]), id(A[1])) in donep:
+                    continue
+                donep.add((id(A[1]), id(B[1])))
+                if nx.has_path(g.g, A[0].id, B[0].id):
+                    first, second = A, B
+                elif nx.has_path(g.g, B[0].id, A[0].id):
+                    first, second = B, A
+                else:
+                    continue
+                pairs += 1
+                between = (nx.descendants(g.g, first[0].id) | {first[0].id}) & (nx.ancestors(g.g, second[0].id) | {second[0].id})
+                written = set()
+                for i in between:
+                    written |= set(g.defs_uses(g.node(i))[0])
+                a1, a2 = _cond_atoms(v, first[0]), _cond_atoms(v, second[0])
+                if any(_atoms_exclude(p_, q_) and not ((p_[-1] | q_[-1]) & written) for p_ in a1 for q_ in a2):
+                    continue
+                desc = "`%s` (line %s) and then `%s` (line %s)" % (render(first[1])[:70], first[4], render(second[1])[:70], second[4])
+                if any(p_[-1] & written for p_ in a1 + a2):
+                    undecided.append(desc)
+                else:
+                    bad.append((desc, second[4]))
+        subjects = sorted({c[2] for c in cover if c[3] == "whole"})
+        base = ("the method works on one triangle (%s); a call that hands the whole of it over (%s) is on no path together with another call that hands over the same triangle "
+                "or one of its children (%d call(s) compared)"
+                % (", ".join(("node position `%s`" % s) if s == par else ("HTM id `%s`" % s) for s in subjects),
+                   ", ".join(sorted({str(callee_name(c[1])) for c in cover if c[3] == "whole"})), len(cover)))
+        if bad:
+            chk.ob(rule, key, False, "%s:%s" % (where, bad[0][1]),
+                   base + " -- %s can both run in one call: the triangle is handed over whole and then handed over / descended into again, so its leaf triangles are "
+                   "listed more than once and every point filed under them is reported as a pair once per listing" % "; ".join(b_[0] for b_ in bad[:3]))
+        elif undecided:
+            chk.ob(rule, key, None, fw, base + " -- %s are separated only by conditions on variables that are written in between; not judged" % "; ".join(undecided[:2]))
+        else:
+            chk.ob(rule, key, True, fw, base)
+
+
 def fill_children_rules(chk, rule="R12.9"):
     """R12.9 (continued): when a stored node lies wholly inside the circle, SpatialConvex::fillChildren hands over all its leaf
     descendants.  Two structural necessary conditions: (a) what is handed over are HTM triangle ids (the `id_` member of the node
@@ -2722,6 +2905,7 @@ def fill_children_rules(chk, rule="R12.9"):
     fs = cfront.functions(decls)
     fn = fs.get("SpatialConvex::fillChildren")
     where = "esutil/htm/htm_src/SpatialConvex.cpp"
+    handed_over_once_rules(chk, rule, fs, where)
     if fn is None:
         chk.ob(rule, "fillChildren::present", None, where, "function not found")
         return
